@@ -110,7 +110,7 @@ Definition run_for (enumerate : bool) (c : sexp) : sexp :=
   match ls with
   | [] => Lst []
   | l0 :: rest =>
-      let '(st, log) := build_mount 1 (pre ++ post) (hd_error post) (N.of_nat (npre + npost)) l0 in
+      let '(st, log) := build_mount (fixed_bld 1) (pre ++ post) (hd_error post) (N.of_nat (npre + npost)) l0 in
       let t := t0 ++ [(ks_marker st, ((-3)%Z, 0%Z, 0%Z))] ++ flat_map item_labels (ks_items st) in
       let births := note_births 0 (ks_items st) [] in
       let '(out, vis) := for_step enumerate t births 0 [] st log in
@@ -131,7 +131,7 @@ Definition run_C11 (c : sexp) : sexp :=
   match ls with
   | [] => Lst []
   | l0 :: rest =>
-      let '(st, log) := build_mount m (pre ++ post) (hd_error post) (N.of_nat (npre + npost)) l0 in
+      let '(st, log) := build_mount (fixed_bld m) (pre ++ post) (hd_error post) (N.of_nat (npre + npost)) l0 in
       let t := t0 ++ [(ks_marker st, ((-3)%Z, 0%Z, 0%Z))] ++ flat_map item_labels (ks_items st) in
       Lst (Lst [s_children t (pre ++ post) (ks_dom st); Lst (map s_event log)]
            :: run_steps t st rest)
